@@ -397,7 +397,14 @@ func (m *passivationManager) trigger(expected *passivationEntry) {
 		if now := time.Now(); !entry.deadline.After(now) {
 			entry.deadline = now.Add(entry.timeout)
 		}
-		cheaps.Push(&m.queue, entry)
+		// The mutex was released while the participant decided: a Pause followed by a
+		// Resume (or a Register) may already have put the entry back. Pushing it a second
+		// time would leave a copy behind whose index no longer matches its position.
+		if entry.index >= 0 {
+			cheaps.Fix(&m.queue, entry.index)
+		} else {
+			cheaps.Push(&m.queue, entry)
+		}
 		m.mu.Unlock()
 		m.notify()
 	}
